@@ -303,7 +303,7 @@ def programs(draw, *, removal_heavy=False, max_threads=2, slow_passes=False):
         scripts[p] = seq
     kinds = ["schedule", "unschedule", "add", "remove", "unschedule_all"]
     if removal_heavy:
-        kinds = ["unschedule", "remove", "unschedule_all", "unschedule", "remove", "schedule", "add"]
+        kinds = ["unschedule", "remove", "unschedule_all", "unschedule", "remove", "schedule", "add", "stop"]
     calls = call_strategy(nh, npaths, kinds)
     handlers = []
     for h in range(nh):
